@@ -12,6 +12,18 @@ def handleNum : List String → Option String
     let v ← parseBits? v; let acc ← parseBits? acc; let md ← parseNat? md; let mw ← parseNat? mw
     if !newApproxPre acc md then return "pre-violated"
     return renderApprox (newApprox floatTable v acc md mw)
+  | ["tryapprox2", v, a1, md1, mw1, a2, md2, mw2] => do
+    -- `Number::try_approx` twice on the same number (history): the second call starts from whatever the first left
+    let v ← parseBits? v; let a1 ← parseBits? a1; let md1 ← parseNat? md1; let mw1 ← parseNat? mw1
+    let a2 ← parseBits? a2; let md2 ← parseNat? md2; let mw2 ← parseNat? mw2
+    if !newApproxPre a1 md1 || !newApproxPre a2 md2 then return "pre-violated"
+    let step := fun (n : Number Float) (a : Float) (md mw : Nat) =>
+      match newApprox floatTable n.value a md mw with
+      | some f => (f, true)
+      | none => (n, false)
+    let (n1, b1) := step (.regular v) a1 md1 mw1
+    let (n2, b2) := step n1 a2 md2 mw2
+    return s!"{n1.render} {b1} {n2.render} {b2}"
   | ["fractable"] =>
     some (" ".intercalate (floatTable.map FracEntry.render))
   | ["fractable_rat"] =>
